@@ -518,6 +518,14 @@ class Interp:
                 raise ValueError
             if isinstance(n, ast.Attribute):
                 b = ev(n.value)
+                if b[0] == "class":
+                    # a constant of another class (``Kind.NAME`` in a table)
+                    oc = self.facts.cls(b[1])
+                    ca2 = oc.find_class_attr(n.attr)
+                    if ca2 is not None and not oc.is_enum_like():
+                        v2 = self._eval_class_attr(ca2[0], n.attr, ca2[1])
+                        if v2 is not None:
+                            return v2
                 raise ValueError
             raise ValueError
         try:
@@ -977,6 +985,12 @@ class Interp:
         a, sa, fa = self._branch(st, c, lambda s, t: self.ev(s, n.body, t))
         b, sb, fb = self._branch(st, mk_not(c), lambda s, t: self.ev(s, n.orelse, t))
         self._absorb(st, c, fa, sa, tree, n.lineno, sb, fb)
+        fresh = lambda e: isinstance(e, (ast.List, ast.ListComp)) or (
+            isinstance(e, ast.Call) and isinstance(e.func, ast.Name) and e.func.id == "list")
+        la, lb = self.obj(a), self.obj(b)
+        if fresh(n.body) and fresh(n.orelse) and isinstance(la, HList) and isinstance(lb, HList) and a != b:
+            # ``[x] if c else []``: one new list either way (nothing else refers to the arms) - its content is conditional
+            return self.new_list([("if", c, list(la.segs), list(lb.segs))], n, tree)
         return mk_cond(c, a, b)
 
     def ev_Subscript(self, st, n, tree):
@@ -1301,6 +1315,8 @@ class Interp:
             pre = self._prelude_for(f[1], args, kwargs)
             if pre is not None:
                 return self.call_function(st, self.facts.prelude().functions[pre[0]], pre[1], {}, n, tree)
+            if f[1] == "next" and args and isinstance(self.obj(args[0]), HGen) and self.obj(args[0]).qualname == "gsa_prelude.p_filter":
+                return self.call_builtin(st, f[1], [args[0]] + self.force_args(st, args[1:], tree, n), kwargs, n, tree)
             return self.call_builtin(st, f[1], self.force_args(st, args, tree, n), kwargs, n, tree)
         if k == "extname":
             nm = f[1]
@@ -1461,6 +1477,19 @@ class Interp:
             return ("call", "open", tuple(args), tuple(sorted(kwargs.items())))
         if name == "next":
             tree.append(("extcall", "next", tuple(args), line))
+            # ``next(filter(p, xs), default)``: the first element satisfying p, else the default
+            g0 = self.obj(args[0]) if args else None
+            if isinstance(g0, HGen) and g0.qualname == "gsa_prelude.p_filter" and len(g0.args) == 2 and g0.forced is None \
+                    and not getattr(g0, "consumed", False):
+                g0.consumed = True
+                pred, xs = g0.args
+                lid = next(self._loop)
+                sub: list = []
+                f = st.fork()
+                c = self.apply(f, pred, [("elem", lid)], {}, n, sub)
+                self.loops[lid] = {"id": lid, "kind": "comp", "iter": xs, "conds": (c,), "line": line, "carried": {}}
+                tree.append(("loop", lid, sub))
+                return ("firstof", lid, ("elem", lid), args[1] if len(args) > 1 else ("raises", "StopIteration"))
             # ``next(iter(xs), default)``: the first element of a sequence, else the default
             if args and args[0][0] == "call" and args[0][1] == "iter" and len(args[0][2]) == 1 and len(args) == 2:
                 xs = args[0][2][0]
@@ -1908,23 +1937,57 @@ class Interp:
         subj = f"__match_{s.lineno}_{s.col_offset}"
         S = lambda: ast.Name(id=subj, ctx=ast.Load())
 
-        def test(p):
-            """(test expr or None for 'always', [capture assignments])"""
+        import copy
+
+        def conj(ts):
+            ts = [t for t in ts if t is not None]
+            if not ts:
+                return None
+            return ts[0] if len(ts) == 1 else ast.BoolOp(op=ast.And(), values=ts)
+
+        def test(p, S=S):
+            """(test expr or None for 'always', [capture assignments]); S() builds the (sub-)subject expression"""
             if isinstance(p, ast.MatchValue):
                 return ast.Compare(left=S(), ops=[ast.Eq()], comparators=[p.value]), []
             if isinstance(p, ast.MatchSingleton):
                 return ast.Compare(left=S(), ops=[ast.Is()], comparators=[ast.Constant(value=p.value)]), []
             if isinstance(p, ast.MatchOr):
-                ts = [test(x) for x in p.patterns]
+                ts = [test(x, S) for x in p.patterns]
                 if any(t is None or t[1] for t in ts):
                     return None
                 if any(t[0] is None for t in ts):
                     return (None, [])
                 return ast.BoolOp(op=ast.Or(), values=[t[0] for t in ts]), []
+            if isinstance(p, ast.MatchSequence) and not any(isinstance(x, ast.MatchStar) for x in p.patterns):
+                # ``case [a, b]``: a sequence of exactly that length, its items matched / bound in turn
+                n_ = len(p.patterns)
+                tests = [ast.Compare(left=ast.Call(func=ast.Name(id="len", ctx=ast.Load()), args=[S()], keywords=[]), ops=[ast.Eq()],
+                                     comparators=[ast.Constant(value=n_)])]
+                caps = []
+                for i_, x in enumerate(p.patterns):
+                    sub = (lambda i_=i_: ast.Subscript(value=S(), slice=ast.Constant(value=i_), ctx=ast.Load()))
+                    r = test(x, sub)
+                    if r is None:
+                        return None
+                    tests.append(r[0])
+                    caps += r[1]
+                return conj(tests), caps
+            if isinstance(p, ast.MatchMapping) and p.rest is None and all(isinstance(k, ast.Constant) for k in p.keys):
+                # ``case {"k": pattern}``: a mapping that has the key, its value matched / bound
+                tests, caps = [], []
+                for k, x in zip(p.keys, p.patterns):
+                    tests.append(ast.Compare(left=ast.Constant(value=k.value), ops=[ast.In()], comparators=[S()]))
+                    sub = (lambda k=k: ast.Subscript(value=S(), slice=ast.Constant(value=k.value), ctx=ast.Load()))
+                    r = test(x, sub)
+                    if r is None:
+                        return None
+                    tests.append(r[0])
+                    caps += r[1]
+                return conj(tests), caps
             if isinstance(p, ast.MatchClass) and not p.patterns and not p.kwd_patterns:
                 return ast.Call(func=ast.Name(id="isinstance", ctx=ast.Load()), args=[S(), p.cls], keywords=[]), []
             if isinstance(p, ast.MatchAs):
-                inner = (None, []) if p.pattern is None else test(p.pattern)
+                inner = (None, []) if p.pattern is None else test(p.pattern, S)
                 if inner is None:
                     return None
                 caps = list(inner[1])
